@@ -169,6 +169,10 @@ def check(case, ctx):
                     except Exception as ex:
                         return exc_fail("%s/%s" % (kind, "cache" if cache else "nocache"), ex)
                     p = st_["pos"][slot]
+                    if fail_at is not None and kind != "fromdicts" and p >= 1:
+                        # every pass over a sort-backed view has to read the whole failing source before its first data row
+                        return Fail("%s/served-despite-failing-source" % kind, "a data row %r was served although the source raises at item %d on every pass "
+                                    "(a partial result of an earlier failed pass is being replayed; history %r)" % (r, fail_at, case["steps"]))
                     if fail_at is None or kind == "fromdicts":
                         if p >= len(ref) or r != ref[p]:
                             return Fail("%s/wrong-row" % kind, "position %d: got %r, reference %r (history %r)" % (p, r, ref[p:p + 1], case["steps"]))
